@@ -417,6 +417,34 @@ def explore_backbone(ctx: common.Ctx, kind: str, n_jobs: int, opts: dict, procs:
     return res
 
 
+def circ_same_site_stream(ctx: common.Ctx, n_jobs: int, procs: int = 14):
+    """two records at one nucleotide inside a small circRNA (cv_backbone.circ_same_site_worker): adding
+    the second record only adds peptides"""
+    from . import cv_backbone
+    jobs = [(ctx.rng('csame', i).randrange(1 << 30), ctx.tier, {}) for i in range(n_jobs)]
+    with mp.get_context('fork').Pool(min(procs, max(1, n_jobs))) as pool:
+        res = pool.map(cv_backbone.circ_same_site_worker, jobs)
+    st = ctx.coverage.setdefault('circ_same_site_stats', {})
+    for r in res:
+        for k, v in r.get('stats', {}).items():
+            st[k] = st.get(k, 0) + v
+        if 'runs' not in r:
+            continue
+        x, y, xy = (set(r['runs'][k]['real']) for k in ('x', 'y', 'xy'))
+        ctx.evaluated('two-records-one-site-in-circRNA', str(r['seed']), bool(xy), r['desc'])
+        if any(r['runs'][k]['status'] != 'ok' for k in ('x', 'y', 'xy')):
+            if r['runs']['x']['status'] == 'ok' and r['runs']['y']['status'] == 'ok':
+                ctx.add_violation(f'callVariant fails ({r["runs"]["xy"]["status"]}) with two records at one site of a '
+                                  'circRNA', dict(r['desc'], kind='circ-same-site'))
+            continue
+        lost = (x | y) - xy
+        if lost:
+            ctx.add_violation(f'{len(lost)} peptide(s) reported for a circRNA with ONE record at a site are missing '
+                              f'when a second record at the same nucleotide is supplied as well, e.g. {sorted(lost)[:3]}',
+                              dict(r['desc'], kind='circ-same-site', lost=sorted(lost)[:20]))
+    shutil.rmtree(gen_ref.WORK, ignore_errors=True)
+
+
 def fusion_dense_stream(ctx: common.Ctx, n_jobs: int, procs: int = 14):
     """a cluster of 6-7 SNVs inside a fusion's accepter part (cv_backbone.fusion_dense_worker): adding
     the last SNV only adds peptides"""
